@@ -162,8 +162,23 @@ class Mon:
         self.rec.count("circshift_calls")
         info = dict(L=L, shift=shift, start_idx=start, dft_size=D, copy=bool(copy), dtype=str(filt_before.dtype))
         Deff = (L + start) if D is None else int(D)
-        if float(shift) != int(shift) or L > Deff or Deff < 1 or start < 0:
+        if L > Deff or Deff < 1 or start < 0:
             self.rec.count("circshift_out_of_scope")
+            return
+        if float(shift) != int(shift):
+            # a fraction of a sample (shift is documented as a float): there is no np.roll to compare with, the statement is the
+            # documented shift theorem itself, DFT(T_u x)[k] = DFT(x)[k] exp(-2 i pi k u) with u = shift / dft_size, k the DFT index
+            self.rec.count("circshift_fractional_shifts")
+            if c.exc is not None:
+                self.v("circshift_fourier(len %d, shift=%r, start_idx=%d, dft_size=%r, copy=%r) raised %r" % (L, shift, start, D, copy, c.exc), check="circshift_raise", **info)
+                return
+            out = np.asarray(c.result)
+            k = (start + np.arange(L)) % Deff
+            want = filt_before.astype(np.complex128) * np.exp(-2j * np.pi * k * float(shift) / Deff)
+            if out.shape != (L,) or (L and float(np.max(np.abs(out - want))) > 1e-9 * max(1e-300, float(np.max(np.abs(want))))):
+                self.v("circshift_fourier by %r samples: output is not input x exp(-2 i pi k shift / %d) (L=%d, start=%d)" % (shift, Deff, L, start), check="circshift_value", **info)
+            elif L:
+                self.rec.nt(("circfrac", L, float(shift), start, D, bool(copy), str(filt_before.dtype)))
             return
         if c.exc is not None:
             self.v("circshift_fourier(len %d, shift=%r, start_idx=%d, dft_size=%r, copy=%r) raised %r" % (L, shift, start, D, copy, c.exc),
@@ -293,6 +308,8 @@ def run_case(case, rec, mon=None):
             shift = int(rng.integers(-3 * max(Deff, 1), 3 * max(Deff, 1) + 1))
             if rng.random() < 0.2:
                 shift = float(shift)
+            elif rng.random() < 0.15:
+                shift = shift + float(rng.choice([0.5, 0.25, -0.75, float(rng.uniform(-1, 1))]))
             dt = rng.choice(["c128", "c64", "f64"])
             seg = rng.standard_normal(L) + 1j * rng.standard_normal(L)
             seg = {"c128": seg.astype(np.complex128), "c64": seg.astype(np.complex64), "f64": seg.real.astype(np.float64)}[dt]
